@@ -221,7 +221,7 @@ func RunMsgCase(cs map[string]any, id int, seed int64) Result {
 	}
 	var crashed, notes []string
 	run := func(name string, noteOnly bool, fn func() error) Outcome {
-		o := Guard(10*time.Second, fn)
+		o := Guard(90*time.Second, fn)
 		if o.Panic != "" || o.Timeout {
 			if noteOnly {
 				notes = append(notes, name)
